@@ -104,6 +104,17 @@ func (p *printer) space() {
 }
 
 func (p *printer) newline() {
+	// pending here-documents begin at the next newline
+	var pending []*ast.Redir
+	for i, list := range p.stack {
+		pending = append(pending, list...)
+		p.stack[i] = nil
+	}
+	for _, r := range pending {
+		p.w.WriteByte('\n')
+		p.word(r.Heredoc)
+		p.word(r.Delim)
+	}
 	p.w.WriteByte('\n')
 }
 
